@@ -252,7 +252,7 @@ func (e *Engine) runOracle(prop, oracle string, hints map[string]interface{}, re
 // oracleFile maps a property to the file holding its executable oracle.
 func oracleFile(prop string) string {
 	switch prop {
-	case "C01", "C02", "C03", "C12", "C07":
+	case "C01", "C02", "C03", "C12", "C07", "C06", "C17":
 		return "handler.go.txt"
 	}
 	return prop + ".go.txt"
